@@ -10,7 +10,7 @@ TRUSTED_BASE = list(W.COMMON_TRUSTED) + [
     "a single Close call per Writer is modelled",
 ]
 ASSUMPTIONS = [
-    "C09_w_close_no_stuck holds only without the late-batchMessages interleaving; at full strength it is refuted (F3)",
+    "fairness: every enabled non-environment step (goroutine, timer, broker answer or time-out) is eventually taken",
 ]
 
 
@@ -19,7 +19,7 @@ def setup():
 
 
 def correspondence(ctx):
-    return W.correspondence_for(PROP, ctx, "C09 judges: Close / call watchdogs, C09_after_close on every history, and the f3 replay (blocking BalancerFunc forces batchMessages after Close).")
+    return W.correspondence_for(PROP, ctx, "C09 judges: Close / call watchdogs, C09_after_close on every history, and the f3 regression scenario (a blocking BalancerFunc forces batchMessages after Close: the call must return io.ErrClosedPipe and Close must return).")
 
 
 def search(ctx, violations):
